@@ -22,12 +22,19 @@ from torch_frame.data import Dataset
 TOL = 1e-9          # cross-batch comparisons (float64, relative to max(1, |out|)); same-batch comparisons are bit-exact
 
 
+TOL32 = 2e-5        # cross-batch comparisons in float32 (relative)
+
+
+def tol_of(dtype):
+    return TOL32 if dtype == "float32" else TOL
+
+
 @contextlib.contextmanager
-def f64(seed=0):
+def f64(seed=0, dtype="float64"):
     old = torch.get_default_dtype()
     st = torch.random.get_rng_state()
     try:
-        torch.set_default_dtype(torch.float64)
+        torch.set_default_dtype(torch.float32 if dtype == "float32" else torch.float64)
         torch.manual_seed(seed)
         yield
     finally:
@@ -98,70 +105,109 @@ def out_channels_of(data):
 MODELS = ["MLP", "ResNet", "FTTransformer", "TabTransformer", "Trompt", "TabNet", "ExcelFormer"]
 
 
-def _enc_dict(kind, channels=None):
-    from torch_frame.nn import (EmbeddingEncoder, LinearBucketEncoder, LinearEncoder, LinearPeriodicEncoder,
-                                StackEncoder)
+# constructor of every stype encoder class the generator knows how to build; classes discovered in the repository
+# that are not listed here make sanity() fail (fail-closed), classes listed in ENC_EXCLUDED are stated exclusions
+ENC_CTORS = {
+    "LinearEncoder": lambda tnn, na: tnn.LinearEncoder(na_strategy=na),
+    "StackEncoder": lambda tnn, na: tnn.StackEncoder(na_strategy=na),
+    "LinearBucketEncoder": lambda tnn, na: tnn.LinearBucketEncoder(na_strategy=na),
+    "LinearPeriodicEncoder": lambda tnn, na: tnn.LinearPeriodicEncoder(n_bins=4, na_strategy=na),
+    "ExcelFormerEncoder": lambda tnn, na: tnn.ExcelFormerEncoder(na_strategy=na),
+    "EmbeddingEncoder": lambda tnn, na: tnn.EmbeddingEncoder(na_strategy=na),
+}
+ENC_EXCLUDED = {"LinearModelEncoder": "wraps a user model per column (col_to_model); excluded by C13's property text"}
+NUM_NA = [None, "mean", "zeros"]
+CAT_NA = [None, "most_frequent"]
+# LinearBucketEncoder builds its mask with .float(): under a float64 default dtype its index_put raises
+# (dtype mismatch) -- cases with that encoder run in float32
+F32_ONLY = {"LinearBucketEncoder"}
+
+
+def encoder_classes(st):
+    """Names of the StypeEncoder subclasses of the repository that support stype `st` (live)."""
+    import inspect
+
+    from torch_frame.nn.encoder import stype_encoder as M
+    out = []
+    for name, cls in vars(M).items():
+        if inspect.isclass(cls) and issubclass(cls, M.StypeEncoder) and cls is not M.StypeEncoder:
+            if st in (getattr(cls, "supported_stypes", None) or ()):
+                out.append(name)
+    return sorted(out)
+
+
+def _na(name):
     from torch_frame.typing import NAStrategy
-    if kind in (None, "default"):
+    return None if name is None else NAStrategy(name)
+
+
+def _enc_dict(opts):
+    """stype_encoder_dict from the drawn classes / NA strategies; None = the model's default dictionary."""
+    from torch_frame import nn as tnn
+    if opts.get("num_enc") is None and opts.get("cat_enc") is None:
         return None
-    if kind == "na":
-        return {stype.categorical: EmbeddingEncoder(na_strategy=NAStrategy.MOST_FREQUENT),
-                stype.numerical: LinearEncoder(na_strategy=NAStrategy.MEAN)}
-    if kind == "zeros":
-        return {stype.categorical: EmbeddingEncoder(na_strategy=NAStrategy.MOST_FREQUENT),
-                stype.numerical: LinearEncoder(na_strategy=NAStrategy.ZEROS)}
-    if kind == "bucket":
-        return {stype.categorical: EmbeddingEncoder(),
-                stype.numerical: LinearBucketEncoder(na_strategy=NAStrategy.MEAN)}
-    if kind == "periodic":
-        return {stype.categorical: EmbeddingEncoder(),
-                stype.numerical: LinearPeriodicEncoder(n_bins=4, na_strategy=NAStrategy.MEAN)}
-    if kind == "stack":
-        return {stype.categorical: EmbeddingEncoder(na_strategy=NAStrategy.MOST_FREQUENT),
-                stype.numerical: StackEncoder(na_strategy=NAStrategy.MEAN)}
-    raise ValueError(kind)
+    d = {stype.numerical: ENC_CTORS[opts.get("num_enc") or "LinearEncoder"](tnn, _na(opts.get("num_na"))),
+         stype.categorical: ENC_CTORS[opts.get("cat_enc") or "EmbeddingEncoder"](tnn, _na(opts.get("cat_na")))}
+    return d
 
 
 def build_model(name, opts, ds, out_channels):
-    """Construct one model of the zoo on the materialised dataset `ds`."""
+    """Construct one model of the zoo on the materialised dataset `ds`; every public constructor argument comes
+    from `opts` (drawn by the generator away from the defaults)."""
     from torch_frame import nn as tnn
     tf = ds.tensor_frame
     cs, cn = ds.col_stats, tf.col_names_dict
     ch = opts.get("channels", 8)
     L = opts.get("layers", 2)
+    drop = opts.get("dropout", 0.2)
     if name == "MLP":
         return tnn.MLP(channels=ch, out_channels=out_channels, num_layers=L + 1, col_stats=cs, col_names_dict=cn,
-                       stype_encoder_dict=_enc_dict(opts.get("enc")), normalization=opts.get("norm", "layer_norm"),
-                       dropout_prob=0.2)
+                       stype_encoder_dict=_enc_dict(opts), normalization=opts.get("norm", "layer_norm"),
+                       dropout_prob=drop)
     if name == "ResNet":
         return tnn.ResNet(channels=ch, out_channels=out_channels, num_layers=L, col_stats=cs, col_names_dict=cn,
-                          stype_encoder_dict=_enc_dict(opts.get("enc")),
-                          normalization=opts.get("norm", "layer_norm"), dropout_prob=0.2)
+                          stype_encoder_dict=_enc_dict(opts), normalization=opts.get("norm", "layer_norm"),
+                          dropout_prob=drop)
     if name == "FTTransformer":
         return tnn.FTTransformer(channels=ch, out_channels=out_channels, num_layers=L, col_stats=cs,
-                                 col_names_dict=cn, stype_encoder_dict=_enc_dict(opts.get("enc")))
+                                 col_names_dict=cn, stype_encoder_dict=_enc_dict(opts))
     if name == "TabTransformer":
         return tnn.TabTransformer(channels=ch, out_channels=out_channels, num_layers=L,
-                                  num_heads=opts.get("heads", 2), encoder_pad_size=2, attn_dropout=0.1,
-                                  ffn_dropout=0.1, col_stats=cs, col_names_dict=cn)
+                                  num_heads=opts.get("heads", 2), encoder_pad_size=opts.get("pad", 2),
+                                  attn_dropout=opts.get("attn_dropout", 0.1), ffn_dropout=drop, col_stats=cs,
+                                  col_names_dict=cn)
     if name == "Trompt":
         dicts = None
-        if opts.get("enc") not in (None, "default"):
-            dicts = [_enc_dict(opts["enc"]) for _ in range(L)]
+        if _enc_dict(opts) is not None:
+            dicts = [_enc_dict(opts) for _ in range(L)]
         return tnn.Trompt(channels=ch, out_channels=out_channels, num_prompts=opts.get("prompts", 2), num_layers=L,
                           col_stats=cs, col_names_dict=cn, stype_encoder_dicts=dicts)
     if name == "TabNet":
-        return tnn.TabNet(out_channels=out_channels, num_layers=L, split_feat_channels=ch, split_attn_channels=ch,
-                          gamma=1.2, col_stats=cs, col_names_dict=cn,
-                          stype_encoder_dict=_enc_dict(opts.get("enc")),
+        return tnn.TabNet(out_channels=out_channels, num_layers=L, split_feat_channels=ch,
+                          split_attn_channels=opts.get("attn_channels", ch), gamma=opts.get("gamma", 1.2),
+                          col_stats=cs, col_names_dict=cn, stype_encoder_dict=_enc_dict(opts),
                           num_shared_glu_layers=opts.get("shared", 2), num_dependent_glu_layers=opts.get("dep", 2),
                           cat_emb_channels=opts.get("cat_emb", 2))
     if name == "ExcelFormer":
         ncols = len(cn[stype.numerical])
+        d = _enc_dict(opts)
+        if d is not None:
+            d = {stype.numerical: d[stype.numerical]}
         return tnn.ExcelFormer(in_channels=ch, out_channels=out_channels, num_cols=ncols, num_layers=L,
                                num_heads=opts.get("heads", 2), col_stats=cs, col_names_dict=cn,
-                               diam_dropout=0.1, aium_dropout=0.1, residual_dropout=0.1)
+                               stype_encoder_dict=d, diam_dropout=drop, aium_dropout=opts.get("aium_dropout", 0.1),
+                               residual_dropout=opts.get("residual_dropout", 0.1))
     raise ValueError(name)
+
+
+def reset_all(model):
+    """A fresh initialisation of every parameter (the feature encoder's own reset_parameters is a no-op)."""
+    from torch_frame.nn.encoder.stype_encoder import StypeEncoder
+    model.reset_parameters()
+    for m in model.modules():
+        if isinstance(m, StypeEncoder) and m is not model:
+            m.reset_parameters()
+    return model
 
 
 def train_steps(model, tf, k, lr=0.05):
